@@ -40,6 +40,12 @@ type Ramp struct {
 	// Boundary: batches may have up to exactly 65,535 ids (otherwise a margin
 	// is kept below the id width)
 	Boundary bool
+	// AllCols: EVERY dictionary-encoded column follows the id, also the ones
+	// that hold (open) enums or ids: span kind, status code, severity number,
+	// aggregation temporality, span ids, link / exemplar trace and span ids,
+	// log bodies of every type (seeded change C04e: a column type that is never
+	// re-evaluated keeps its 8-bit index for ever)
+	AllCols bool
 }
 
 // NewBoundaryRamp builds batches with exactly (or just below) 65,535
@@ -87,6 +93,7 @@ func NewRamp(t *rapid.T, big bool) *Ramp {
 		r.Sizes = []int{60000, 40000, 20000, 300, 1, 0}
 	}
 	r.Wide = rapid.Bool().Draw(t, "wide")
+	r.AllCols = rapid.Bool().Draw(t, "allcols")
 	r.Fan = rapid.SampledFrom([]int{1, 1, 2, 4}).Draw(t, "fan")
 	if big {
 		// a 65,000-item batch with four string attributes per item, event and
@@ -238,6 +245,14 @@ func (r *Ramp) Traces() ptrace.Traces {
 			sp.SetTraceID(tid)
 			sp.SetStartTimestamp(pcommon.Timestamp(1000 + id))
 			sp.SetEndTimestamp(pcommon.Timestamp(2000 + 2*id))
+			var sid pcommon.SpanID
+			if r.AllCols {
+				sp.SetKind(ptrace.SpanKind(id))
+				sp.Status().SetCode(ptrace.StatusCode(id))
+				copy(sid[:], "s"+s)
+				sp.SetSpanID(sid)
+				sp.SetParentSpanID(sid)
+			}
 			r.attrs(sp.Attributes(), id)
 			if r.plain {
 				continue
@@ -249,6 +264,7 @@ func (r *Ramp) Traces() ptrace.Traces {
 			if r.Wide {
 				lk := sp.Links().AppendEmpty()
 				lk.SetTraceID(tid)
+				lk.SetSpanID(sid)
 				lk.TraceState().FromRaw("lts" + s)
 				r.attrs(lk.Attributes(), id)
 			}
@@ -289,6 +305,20 @@ func (r *Ramp) Logs() plog.Logs {
 			var tid pcommon.TraceID
 			copy(tid[:], "t"+s)
 			l.SetTraceID(tid)
+			if r.AllCols {
+				l.SetSeverityNumber(plog.SeverityNumber(id))
+				var sid pcommon.SpanID
+				copy(sid[:], "s"+s)
+				l.SetSpanID(sid)
+				switch id % 4 {
+				case 1:
+					l.Body().SetInt(int64(id))
+				case 2:
+					l.Body().SetEmptyBytes().FromRaw([]byte(s))
+				case 3:
+					l.Body().SetEmptySlice().AppendEmpty().SetStr(s)
+				}
+			}
 			r.attrs(l.Attributes(), id)
 		}
 	}
@@ -326,13 +356,29 @@ func (r *Ramp) Metrics() pmetric.Metrics {
 			m.SetUnit("u" + s)
 			m.SetDescription("d" + s)
 			if id%2 == 0 || !r.Wide {
-				dp := m.SetEmptyGauge().DataPoints().AppendEmpty()
+				var dp pmetric.NumberDataPoint
+				if r.AllCols {
+					sum := m.SetEmptySum()
+					sum.SetAggregationTemporality(pmetric.AggregationTemporality(id))
+					sum.SetIsMonotonic(id%3 == 0)
+					dp = sum.DataPoints().AppendEmpty()
+				} else {
+					dp = m.SetEmptyGauge().DataPoints().AppendEmpty()
+				}
 				dp.SetIntValue(int64(id))
 				dp.SetTimestamp(pcommon.Timestamp(1000 + id))
 				r.attrs(dp.Attributes(), id)
-				if r.Wide && !r.plain {
+				if (r.Wide || r.AllCols) && !r.plain {
 					ex := dp.Exemplars().AppendEmpty()
 					ex.SetIntValue(int64(id))
+					if r.AllCols {
+						var tid pcommon.TraceID
+						copy(tid[:], "t"+s)
+						ex.SetTraceID(tid)
+						var sid pcommon.SpanID
+						copy(sid[:], "s"+s)
+						ex.SetSpanID(sid)
+					}
 					r.attrs(ex.FilteredAttributes(), id)
 				}
 			} else if id%4 == 1 {
